@@ -307,6 +307,18 @@ def run(ctx):
             ctx.nontriv((c['qjs'], json.dumps(c['A']), json.dumps(c['B'])))
     for c, e, g_ in list(zip(cases, exp, got))[:3]:
         ctx.sample({'query_js': c['qjs'], 'A': c['A'], 'B': c['B'], 'model': e, 'rbql_js': g_})
+    # "... the same result table, OUTPUT HEADER and error class": select lists of every item kind x header / join / DISTINCT [COUNT] /
+    # EXCEPT / UPDATE through rbql-js query_table against the header model (Header.v, C07)
+    import importlib
+    c07 = importlib.import_module('props.c07')
+    hcases = [c07.gen_case(ctx.rng) for _ in range(800 if ctx.tier == 'quick' else 60000)]
+    hargs, hraw, hexp = c07.model_header(hcases)
+    hgot = lib.run_impl_js('c07', hcases, shards=8)
+    ctx.compare([dict(c, impl='js', part='header') for c in hcases], hexp, hgot, THEOREM + ' ; header: C07_names / C07_width_select (Header.v)', rel=c07.rel,
+                describe=lambda c, e, g: 'rbql-js header: query %r (input header %r): model %s, rbql-js %s' % (c['qjs'], c['hdrA'], json.dumps(e), json.dumps(g)),
+                corrupt=lambda e: {'header': ['CANARY'], 'perr': False})
+    ctx.count(len(hcases))
+    ctx.stat('header_cases', len(hcases))
     ctx.rule = ('queries generated from the language-neutral vocabulary (field references, literals, string concatenation, NR/NF arithmetic, .length, comparisons with ===, &&/||/!, ?:, like, list literals) '
                 'rendered into JS syntax over rectangular string tables: select/where (star forms, EXCEPT, UNNEST), order by + distinct/distinct count + top/limit, aggregates with GROUP BY, joins (5 spellings), update; '
                 'compared with the reference model (flavour Js): result table by value (numbers numerically), error class and record number, input/join arrays deep-equal and identical afterwards, no aliasing; '
@@ -314,6 +326,14 @@ def run(ctx):
 
 
 def replay(ctx, case):
+    if case.get('part') == 'header':
+        import importlib
+        c07 = importlib.import_module('props.c07')
+        c = {k: v for k, v in case.items() if k not in ('impl', 'part')}
+        _a, _r, exp = c07.model_header([c])
+        ctx.count()
+        ctx.compare([case], exp, lib.run_impl_js('c07', [c], shards=1), THEOREM, rel=c07.rel)
+        return
     case = {k: v for k, v in case.items() if k != 'impl'}
     args, model, exp, got = evaluate(ctx, [case])
     ctx.count()
